@@ -237,3 +237,44 @@ package server
 //@ ensures [C03] !(client.version == 5 && pubrec.Code >= 128) ==> Q.$removes == old(Q.$removes) && Q.$replaces == old(Q.$replaces) + 1 && Q.$lastReplaced.MessageWithID.(type *queue.Pubrel) && Q.$lastReplaced.MessageWithID.(*queue.Pubrel).PacketID == pubrec.PacketID
 // (if the store fails to replace the entry the connection is being closed with an error: setError may send a DISCONNECT)
 //@ ensures [C03] !(client.version == 5 && pubrec.Code >= 128) && called(client.setError#2) == 0 ==> client.$nout == old(client.$nout) || (client.$nout == old(client.$nout) + 1 && client.$lastOut.(type *packets.Pubrel) && client.$lastOut.(*packets.Pubrel).PacketID == pubrec.PacketID)
+
+// ---------------------------------------------------------------------------
+// C13 — the write loop: outbound topic aliases and the Receive Maximum quota. For a v5 client that announced a Topic
+// Alias Maximum the alias manager is asked once per PUBLISH; if the topic already has an alias the packet goes out
+// with the alias and an empty topic name, otherwise with the full topic name and (if one was assigned) the new alias.
+// Every PUBACK / PUBCOMP / failing PUBREC sent to a v5 client gives one unit of the inbound quota back — nothing else does.
+//@ func (TopicAliasManager).Check
+//@ params m, publish
+//@ requires publish != nil
+//@ modifies heap
+//@ preserves all(client.*), all(ClientOptions.*), all(server.*), all(Hooks.*), all(statsManager.*), all(packets.Publish.*), all(packets.Properties.*), all(packets.Puback.*), all(packets.Pubcomp.*), all(packets.Pubrec.*)
+//@ ensures result1 ==> result0 != 0
+
+//@ func field (Hooks).OnDelivered
+//@ params self, ctx, c, msg
+
+//@ func (*client).writePacket trusted
+//@ requires client != nil
+
+// What travels on client.out was built for this connection (client.write): typed pointers are non-nil, a PUBLISH for
+// a v5 client carries a property block (MessageToPublish).
+//@ spec func wfOut(c *client, p packets.Packet) bool = (p.(type *packets.Publish) ==> p.(*packets.Publish) != nil && p.(*packets.Publish).Version == c.version && (c.version == 5 ==> p.(*packets.Publish).Properties != nil)) && (p.(type *packets.Pubrec) ==> p.(*packets.Pubrec) != nil) && (p.(type *packets.Puback) ==> p.(*packets.Puback) != nil) && (p.(type *packets.Pubcomp) ==> p.(*packets.Pubcomp) != nil)
+//@ recv field (client).out ensures wfOut(client, value)
+
+//@ func (*client).writeLoop
+//@ props C13
+//@ requires [C13] client != nil && client.server != nil && client.opts != nil && client.out != nil && client.close != nil && client.rwc != nil && smOK(client.server.statsManager)
+//@ requires [C13] client.version == 5 && client.opts.ClientTopicAliasMax > 0 ==> client.topicAliasManager != nil
+//@ requires [C13] client.serverReceiveMaximumQuota <= client.opts.ReceiveMax
+//@ modifies heap, ghost(client.$nout), ghost(client.$lastOut)
+//@ waive panic
+//@ loop 1 invariant client != nil && client == old(client) && client.server != nil && srv == client.server && client.opts != nil && client.out != nil && client.close != nil && client.rwc != nil && smOK(srv.statsManager) && (client.version == 5 && client.opts.ClientTopicAliasMax > 0 ==> client.topicAliasManager != nil) && client.serverReceiveMaximumQuota <= client.opts.ReceiveMax
+//@ call client.addServerQuota#1 assert [C13] client.version == 5 && (packet.(type *packets.Puback) || packet.(type *packets.Pubcomp))
+//@ call client.addServerQuota#2 assert [C13] client.version == 5 && packet.(type *packets.Pubrec) && packet.(*packets.Pubrec).Code >= 128
+//@ call client.writePacket#1 assert [C13] client.version == 5 && (packet.(type *packets.Puback) || packet.(type *packets.Pubcomp)) ==> called(client.addServerQuota#1) == at(iter1, called(client.addServerQuota#1)) + 1
+//@ call client.writePacket#1 assert [C13] client.version == 5 && packet.(type *packets.Pubrec) && packet.(*packets.Pubrec).Code >= 128 ==> called(client.addServerQuota#2) == at(iter1, called(client.addServerQuota#2)) + 1
+//@ call client.writePacket#1 assert [C13] called(client.addServerQuota#1) + called(client.addServerQuota#2) <= at(iter1, called(client.addServerQuota#1)) + at(iter1, called(client.addServerQuota#2)) + 1
+//@ call client.writePacket#1 assert [C13] packet.(type *packets.Publish) && client.version == 5 && client.opts.ClientTopicAliasMax > 0 ==> called(TopicAliasManager.Check#1) == at(iter1, called(TopicAliasManager.Check#1)) + 1
+//@ call client.writePacket#1 assert [C13] packet.(type *packets.Publish) && !(client.version == 5 && client.opts.ClientTopicAliasMax > 0) ==> called(TopicAliasManager.Check#1) == at(iter1, called(TopicAliasManager.Check#1))
+//@ call client.writePacket#1 assert [C13] packet.(type *packets.Publish) && client.version == 5 && client.opts.ClientTopicAliasMax > 0 && ok ==> len(p.TopicName) == 0 && p.Properties.TopicAlias != nil && *p.Properties.TopicAlias == alias
+//@ call client.writePacket#1 assert [C13] packet.(type *packets.Publish) && client.version == 5 && client.opts.ClientTopicAliasMax > 0 && !ok && alias != 0 ==> p.Properties.TopicAlias != nil && *p.Properties.TopicAlias == alias
